@@ -154,6 +154,17 @@ def cases(rng, tier):
                 yield Case(program=f"{lit_sp} ㅂㅎㄴ", fs={fname + ".pbhhg": "ㄷㅈ".encode(), **noise}, tag='spelling-module-file-noise')
                 yield Case(program=f"{lit_sp} ㅂㅎㄴ", fs=noise, tag='spelling-module-only-noise')
                 yield Case(program=f"{lit_sp} ㄴ ㅂㅎㄷ", fs={fname + "/나.pbhhg": "ㄷㅈ".encode(), fname + "/x.txt": b"q", **noise}, tag='spelling-module-dir-noise')
+                # … next to *other spellings of the same number*: every spelling is searched (a directory is found although a
+                # padded file or directory lies beside it), and two files that both spell the number are ambiguous (seeded
+                # change S08k indexed a directory by the decoded number and so kept one spelling per number)
+                twin = "".join(SYL[c] for c in (word + "ㄱㄱ"))
+                mod = {fname + "/나.pbhhg": "ㄷㅈ".encode()}
+                yield Case(program=f"{lit_sp} ㄴ ㅂㅎㄷ", fs={**mod, twin + ".txt": b"q"}, tag='spelling-module-twin-file')
+                yield Case(program=f"{lit_sp} ㄴ ㅂㅎㄷ", fs={**mod, fname + ".pbhhg": "ㄹ".encode()}, tag='spelling-module-twin-ext')
+                yield Case(program=f"{lit_sp} ㄴ ㅂㅎㄷ", fs={**mod, twin + "/x.txt": b"q"}, tag='spelling-module-twin-dir')
+                yield Case(program=f"{lit_sp} ㄴ ㅂㅎㄷ", fs={twin + "/나.pbhhg": "ㄷㅈ".encode(), fname + "/x.txt": b"q"}, tag='spelling-module-twin-dir2')
+                yield Case(program=f"{lit_sp} ㅂㅎㄴ", fs={fname + ".pbhhg": "ㄷㅈ".encode(), twin + ".pbhhg": "ㄷㅈ".encode()}, tag='spelling-module-twin-ambiguous')
+                yield Case(program=f"{lit_sp} ㄴ ㅂㅎㄷ", fs={**mod, twin + "/나.pbhhg": "ㄷㅈ".encode()}, tag='spelling-module-twin-ambiguous-dir')
     # file mode / command spellings on a real scratch file
     for k in (1, 2):
         P = lambda w: pad(w, k)
